@@ -190,11 +190,11 @@ static void explore(Result& R) {
         if (!e.empty()) { int only = atoi(e.c_str() + e.rfind("lattice index ") + 14); R.violation(clause_of(e) + "|types=" + std::to_string(ta) + ">" + std::to_string(tb) + "|range-lattice", e, "mode=range\ntri=" + std::to_string(tri) + "\nrot=" + std::to_string(rot) + "\ncut=" + std::to_string(cu) + "\nta=" + std::to_string(ta) + "\ntb=" + std::to_string(tb) + "\nonly=" + std::to_string(only) + "\n"); } }
     R["range_lattice_placements_within_cutoff"] = within; R["range_lattice_placements_beyond_cutoff"] = beyond; R["range_lattice_placements_with_force"] = rforces; cases += within + beyond;
     if (R.violations.empty() && (!within || !beyond || !rforces)) R.internal_error = "range lattice vacuous";
-    R["evaluations"] = cases + tissues; R["states"] = cases + tissues; R["transitions"] = cases + tissues; R["distinct_nontrivial"] = cases + tissues; R["traces_validated_against_impl"] = cases + tissues;
+    R["evaluations"] = cases + tissues; R["states"] = cases + tissues; R["transitions"] = cases + tissues; R["distinct_nontrivial"] = st.forces + st.couplings + nonzero + within; R["traces_validated_against_impl"] = cases + tissues;
     R["single_interactions"] = cases; R["interactions_with_force"] = st.forces; R["interactions_with_coupling"] = st.couplings; R["interactions_with_no_effect"] = st.nothing; R["interactions_rejected_by_the_models_own_prefilter"] = st.prefiltered; R["forces_on_forbidden_side_checked_for_direction"] = st.forbidden_forces; R["tissues"] = tissues; R["tissues_with_contact_force"] = nonzero;
     R.tables["build"]["contact_model_index"] = CONTACT_MODEL_INDEX;
     if (R.violations.empty() && (!st.forces || !st.forbidden_forces || !nonzero)) R.internal_error = "no contact force was ever produced (vacuous)";
-    R.strings["rule"] = "single interactions: every ordered pair of the five cell types x 7 signed distances (in units of the relevant cut-off, both sides of the surface) x node above the interior / an edge / a vertex of the triangle x 3 strength sets x 2 cut-off pairs x 3 faces x 2 meshes, run through the model's own narrow-phase routine with force increments read back; tissues: two icospheres at 25 offsets x type pairs x 4 persistent-id assignments (start-up ids, ids after a removal at the list head / in the middle, late ids) through contact_model::run, forces and couplings identical for all id assignments; single concave cells x the same id assignments; range lattice: 5 triangle shapes x 3 stored orders x 13x13x6 node placements (up to 1.3 edge lengths beyond the triangle, 0.05-0.35 off its plane) x type pairs x cut-off pairs through the narrow phase";
+    R.strings["rule"] = "distinct_nontrivial = single interactions that produced a force or a coupling + tissues with a non-zero contact force + lattice placements within the cut-off (all distinct tuples by construction); single interactions: every ordered pair of the five cell types x 7 signed distances (in units of the relevant cut-off, both sides of the surface) x node above the interior / an edge / a vertex of the triangle x 3 strength sets x 2 cut-off pairs x 3 faces x 2 meshes, run through the model's own narrow-phase routine with force increments read back; tissues: two icospheres at 25 offsets x type pairs x 4 persistent-id assignments (start-up ids, ids after a removal at the list head / in the middle, late ids) through contact_model::run, forces and couplings identical for all id assignments; single concave cells x the same id assignments; range lattice: 5 triangle shapes x 3 stored orders x 13x13x6 node placements (up to 1.3 edge lengths beyond the triangle, 0.05-0.35 off its plane) x type pairs x cut-off pairs through the narrow phase";
     R.assumptions = {"forbidden side = behind the triangle normal, except epithelial node / ECM triangle and nucleus node / epithelial triangle where it is in front of it", "range: model 0 is held to the cut-off of the regime (adhesion in front, repulsion behind), the coupling models to the larger of the two (their rule)", "a repulsive force is demanded within the repulsion cut-off on the forbidden side unless the pair is epithelial-epithelial in a coupling model (which may couple instead)", "pairs rejected by the model's own node/normal pre-filters are counted, not judged"};
 }
 static int replay(const Replay& rp, Result& R) { std::string e1, e2, m = rp.get("mode"); long nz = 0;
